@@ -13,7 +13,7 @@ import (
 	"github.com/trustbloc/sidetree-core-go/pkg/api/cas"
 	"github.com/trustbloc/sidetree-core-go/pkg/api/operation"
 	"github.com/trustbloc/sidetree-core-go/pkg/api/protocol"
-	"github.com/trustbloc/sidetree-core-go/pkg/docutil"
+	"github.com/trustbloc/sidetree-core-go/pkg/canonicalizer"
 	logfields "github.com/trustbloc/sidetree-core-go/pkg/internal/log"
 	"github.com/trustbloc/sidetree-core-go/pkg/versions/1_0/model"
 	"github.com/trustbloc/sidetree-core-go/pkg/versions/1_0/operationparser"
@@ -282,7 +282,10 @@ func (h *OperationHandler) createProvisionalIndexFile(chunks []string, provision
 }
 
 func (h *OperationHandler) writeModelToCAS(m interface{}, alias string) (string, error) {
-	bytes, err := docutil.MarshalCanonical(m)
+	// the files are written in the form in which the size limits of the protocol are measured (JCS): encoding/json
+	// would spell '<', '>' and '&' as six bytes each, a batch of operations that are all within the maximum delta
+	// size would then come to several times count x size and be refused by every reader
+	bytes, err := canonicalizer.MarshalCanonical(m)
 	if err != nil {
 		return "", fmt.Errorf("failed to marshal %s file: %s", alias, err.Error())
 	}
